@@ -13,6 +13,17 @@ for spec in sys.argv[1:]:
     if impl: attrs["impl"] = impl
     if derive: attrs["derive"] = derive
     if body: attrs["body"] = body
+    if kind == "region":
+        # file:region:name:impl:in_fn:from:to[:from_nth[:to_nth]]
+        in_fn, frm, to = parts[4], parts[5], parts[6]
+        fn_, tn_ = (parts[7] if len(parts) > 7 else "0"), (parts[8] if len(parts) > 8 else "0")
+        attrs.update({"in": in_fn, "from": frm, "to": to})
+        ex = X.extract_region(os.path.join(vf.REPO, f), in_fn, impl, frm, to, int(fn_), int(tn_))
+        text, log, loops = vf.normalise_item(attrs, ex["text"])
+        hdr = '//#item file=%s kind=region name=%s in=%s from="%s" to="%s" from_nth=%s to_nth=%s' % (f, name, in_fn, frm, to, fn_, tn_)
+        if impl: hdr += ' impl="%s"' % impl
+        print(hdr); print(text.rstrip("\n")); print("//#end")
+        continue
     ex = X.extract(os.path.join(vf.REPO, f), kind, name, impl)
     text, log, loops = vf.normalise_item(attrs, ex["text"])
     hdr = "//#item file=%s kind=%s name=%s" % (f, kind, name)
